@@ -12,12 +12,14 @@ import (
 	"encoding/json"
 	"fmt"
 	"net/mail"
+	"regexp"
 	"strings"
 	"testing"
 
 	"github.com/emersion/go-message/textproto"
 	"github.com/foxcpp/maddy/framework/config"
 	"github.com/foxcpp/maddy/framework/module"
+	"github.com/foxcpp/maddy/internal/table"
 	"github.com/foxcpp/maddy/internal/verif/vx"
 	"golang.org/x/net/idna"
 	"golang.org/x/text/unicode/norm"
@@ -45,12 +47,15 @@ var (
 )
 
 type c15Cfg struct {
-	Name    string              `json:"name"`
-	U2E     map[string][]string `json:"user_to_email"` // nil: identity
-	Prep    map[string][]string `json:"prepare_email"` // nil: identity
-	Norm    string              `json:"normalize"`
+	Name string              `json:"name"`
+	U2E  map[string][]string `json:"user_to_email"` // nil: identity
+	Prep map[string][]string `json:"prepare_email"` // nil: identity
+	Norm string              `json:"normalize"`
 	// Actions: "" = default actions; "custom-replies" = every action directive is "reject" with its own SMTP reply
 	Actions string `json:"actions,omitempty"`
+	// RegexU2E: user_to_email is a real table.regexp {expression, replacement} with case_insensitive yes
+	// (and the default full_match): users matching the whole expression get the replacement
+	RegexU2E []string `json:"user_to_email_regexp,omitempty"`
 }
 
 type c15Case struct {
@@ -110,6 +115,12 @@ func c15Entitled(cfg c15Cfg, user, addr string) bool {
 	if cfg.U2E != nil {
 		entries = cfg.U2E[u]
 	}
+	if cfg.RegexU2E != nil {
+		entries = nil
+		if regexp.MustCompile("(?i)^(?:" + cfg.RegexU2E[0] + ")$").MatchString(u) {
+			entries = []string{cfg.RegexU2E[1]}
+		}
+	}
 	for _, p := range prepared {
 		dom := ""
 		if i := strings.LastIndex(p, "@"); i >= 0 {
@@ -144,6 +155,18 @@ func c15Eval(r *vx.Run, c c15Case) {
 	if err := chk.Init(config.NewMap(map[string]interface{}{}, config.Node{Children: nodes})); err != nil {
 		r.HarnessError("check init: " + err.Error())
 		return
+	}
+	if c.Cfg.RegexU2E != nil {
+		mod, err := table.NewRegexp("table.regexp", "", nil, c.Cfg.RegexU2E)
+		if err != nil {
+			r.HarnessError("regexp table: " + err.Error())
+			return
+		}
+		if err := mod.(*table.Regexp).Init(config.NewMap(nil, config.Node{Children: []config.Node{{Name: "case_insensitive", Args: []string{"yes"}}}})); err != nil {
+			r.HarnessError("regexp table init: " + err.Error())
+			return
+		}
+		chk.userToEmail = mod.(*table.Regexp)
 	}
 	hdr, err := textproto.ReadHeader(bufio.NewReader(strings.NewReader(c.Header + "\r\n")))
 	if err != nil {
@@ -230,7 +253,7 @@ func TestVerifC15(t *testing.T) {
 	defer r.Finish()
 	module.RegisterInstance(c15U2E, nil)
 	module.RegisterInstance(c15Prep, nil)
-	r.Rule("entitlement tables {identity, address lists, domain entry, '*'} x prepare_email {identity, alias map} x normalisation {auto, noop, precis_email (case-preserving)} x action directives {default, reject with a custom SMTP reply} x authenticated user {entitled, other, none; case / NFD spellings} x MAIL FROM {entitled, alias, spelling variants incl. A-label, not entitled, a sharp-s domain next to its ss twin} x header layouts {single From, two addresses in one From, two From fields in both orders, group syntax, display name containing an address, RFC 2047 display name, folded field, missing From, an empty From field before / after a filled one} x Sender {absent, entitled, not entitled}; thorough tier: more addresses (subdomain, suffix-confusable domains, plus-tag, upper-case alias), layouts (bare addr-spec, comments, three From fields, group followed by an address, folded lists, empty first line) and Sender shapes (display name, two Sender fields, upper-case); each through the real check.authorize_sender initialised from configuration (CheckSender + CheckBody); a message counts as accepted when neither result carries the reject or quarantine flag (what the pipeline acts on); oracle: every acceptance is justified by the reference entitlement function (authenticated, envelope sender entitled, every address of every From field entitled or an entitled Sender present). Non-trivial: distinct accepted cases")
+	r.Rule("entitlement tables {identity, address lists, domain entry, '*', a real case-insensitive table.regexp} x prepare_email {identity, alias map} x normalisation {auto, noop, precis_email (case-preserving)} x action directives {default, reject with a custom SMTP reply} x authenticated user {entitled, other, none; case / NFD spellings} x MAIL FROM {entitled, alias, spelling variants incl. A-label, not entitled, a sharp-s domain next to its ss twin} x header layouts {single From, two addresses in one From, two From fields in both orders, group syntax, display name containing an address, RFC 2047 display name, folded field, missing From, an empty From field before / after a filled one} x Sender {absent, entitled, not entitled}; thorough tier: more addresses (subdomain, suffix-confusable domains, plus-tag, upper-case alias), layouts (bare addr-spec, comments, three From fields, group followed by an address, folded lists, empty first line) and Sender shapes (display name, two Sender fields, upper-case); each through the real check.authorize_sender initialised from configuration (CheckSender + CheckBody); a message counts as accepted when neither result carries the reject or quarantine flag (what the pipeline acts on); oracle: every acceptance is justified by the reference entitlement function (authenticated, envelope sender entitled, every address of every From field entitled or an entitled Sender present). Non-trivial: distinct accepted cases")
 	if rp := r.Replay(); rp != nil {
 		var c c15Case
 		if json.Unmarshal(rp, &c) != nil {
@@ -253,9 +276,10 @@ func TestVerifC15(t *testing.T) {
 		{Name: "lists/noop", Norm: "noop", U2E: map[string][]string{"alice": {"alice@example.org"}}},
 		{Name: "lists/precis_email", Norm: "precis_email", U2E: map[string][]string{"alice@example.org": {"alice@example.org", "alias@example.org"}, "renée@пример.рф": {"renée@пример.рф"}}},
 		{Name: "identity/precis_email", Norm: "precis_email"},
+		{Name: "regexp-table/auto", Norm: "auto", RegexU2E: []string{`alice@.*`, "*"}},
 		{Name: "lists/auto/custom-replies", Norm: "auto", Actions: "custom-replies", U2E: map[string][]string{"alice": {"alice@example.org", "alias@example.org"}, "bob": {"bob@example.org"}}},
 	}
-	users := []string{"alice", "ALICE", "alice@example.org", "Alice@EXAMPLE.org", "bob", "root", "mallory@evil.example", "", "renée@пример.рф", nfd("renée") + "@xn--e1afmkfd.xn--p1ai"}
+	users := []string{"alice", "ALICE", "malice@example.org", "alice@example.org", "Alice@EXAMPLE.org", "bob", "root", "mallory@evil.example", "", "renée@пример.рф", nfd("renée") + "@xn--e1afmkfd.xn--p1ai"}
 	addrs := []string{"alice@example.org", "ALICE@Example.ORG", "alias@example.org", "shared@example.org", "bob@example.org", "mallory@evil.example", "renée@пример.рф", nfd("renée") + "@XN--E1AFMKFD.XN--P1AI", "other@example.org", "alice@notexample.org",
 		// entitled: info@strasse.example; a different IDNA2008 domain that full case folding would merge with it
 		"info@strasse.example", "info@stra\u00dfe.example", "info@XN--STRAE-OQA.example"}
